@@ -127,3 +127,36 @@ Example poll_nonvacuous :
   | _ => False
   end.
 Proof. vm_compute. repeat split. Qed.
+
+(** ** the launch loop around the controller ([async_launch::launch], Launch.v): commands and the
+    controller future are selected at random; a [Terminate] fires the abort signal the first
+    time and is a no-op afterwards; the poll of [launch] returns after at most one iteration per
+    queued command plus one — whatever is queued, whatever [select!] picks. *)
+From Cambrian Require Import Launch.
+Theorem launch_poll_returns :
+  forall (V M T : Type) (tcmp : T -> T -> comparison) (mean : list T -> T) (hit : T -> bool)
+         (max_pop min_reeval ss : nat) (budget : option N) (init_val : V) (os : N -> orc V M)
+         (cmds : list cmd) (pick cpick : nat -> bool) (sent closed : bool) (c : ctl V M T)
+         (ready : list (N * outcome T * bool)),
+    lpoll V M T tcmp mean hit max_pop min_reeval ss budget init_val os abort_branch_guarded
+          (S (length cmds)) pick (S (S (length ready))) cpick sent c cmds closed ready
+    <> LSpin V M T.
+Proof.
+  intros. apply lpoll_returns; [|lia].
+  intros s c0 r0 [->| ->].
+  - apply every_poll_returns.
+  - apply poll_returns; [reflexivity|]. cbn [length].
+    match goal with |- context [if ?b then _ else _] => destruct b end; lia.
+Qed.
+Print Assumptions launch_poll_returns.
+
+Theorem second_terminate_changes_nothing :
+  forall (V M T : Type) (tcmp : T -> T -> comparison) (mean : list T -> T) (hit : T -> bool)
+         (max_pop min_reeval ss : nat) (budget : option N) (init_val : V) (os : N -> orc V M) (g : bool)
+         (f : nat) (pick cpick : nat -> bool) (cfuel : nat) (sent closed : bool) (c : ctl V M T)
+         (r : list cmd) (ready : list (N * outcome T * bool)),
+    pick f = true ->
+    lpoll V M T tcmp mean hit max_pop min_reeval ss budget init_val os g (S f) pick cfuel cpick sent c (CTerminate :: r) closed ready
+    = lpoll V M T tcmp mean hit max_pop min_reeval ss budget init_val os g f pick cfuel cpick true c r closed ready.
+Proof. intros. apply terminate_is_idempotent. assumption. Qed.
+Print Assumptions second_terminate_changes_nothing.
